@@ -245,6 +245,14 @@ def run(chk: Check) -> None:
             oc = other_ctx(code, rp_payload) if has_ctx else None
             if oc and re.match(by_cv[(code, rverb)], oc) and not (code == "0418" and oc == NULL_0418):
                 misses.append(("ctx", f"{rverb} --- {dst} {reply[17:26]} --:------ {code} {len(oc) // 2:03d} {oc}"))
+            # the extreme member: the same reply in context 00 (for 0418 that is where a *null* entry is reported; a real
+            # entry 00 is not the answer to a request for another entry)
+            if has_ctx:
+                a, b = ctx_slices(code)[-1]
+                if len(rp_payload) >= b and rp_payload[a:b] != "0" * (b - a):
+                    oz = rp_payload[:a] + "0" * (b - a) + rp_payload[b:]
+                    if re.match(by_cv[(code, rverb)], oz) and not (code == "0418" and oz == NULL_0418):
+                        misses.append(("ctx", f"{rverb} --- {dst} {reply[17:26]} --:------ {code} {len(oz) // 2:03d} {oz}"))
             osrc = "01:999999" if dst != "01:999999" else "01:888888"
             misses.append(("src", reply[:7] + osrc[:2].replace("01", dst[:2]) + osrc[2:] + reply[16:]))
             overb = " I" if rverb == "RP" else "RP"
